@@ -5,7 +5,7 @@ import "time"
 func init() {
 	registry = append(registry, property{id: "C08", parts: []part{
 		{name: "headers", pkg: "./c08", run: "^TestHeaders$",
-			shards: [2]int{16, 16}, checks: [2]int{30, 600}, timeout: [2]time.Duration{12 * min, 40 * min},
+			shards: [2]int{16, 16}, checks: [2]int{30, 600}, timeout: [2]time.Duration{12 * min, 80 * min},
 			bins: []string{"goose"}},
 	}})
 }
